@@ -286,7 +286,7 @@ func tail(s string) string {
 }
 
 func checkC06(ctx *Ctx) {
-	ctx.Res.Rule = "random slot workloads (max 1..4, 1..3 processes with CoresPerTask 1..max, 1..10 tasks each, sleeping commands, optional delay between token deposits); non-trivial = more than one process or more tasks than slots; distinct by (max, cores, tasks, sleep, delay)"
+	ctx.Res.Rule = "random slot workloads (max 1..4, 1..3 processes with CoresPerTask 1..max, 1..10 tasks each, sleeping commands, optional delay between token deposits); non-trivial = more than one process or more tasks than slots; distinct by (max, cores, tasks, sleep, delay); also: a streaming producer/consumer pair among slot competitors, multi-core tasks asking for slots while some but not enough are free; the bound is judged also on runs that get stuck afterwards."
 	r := NewRng(ctx.Seed)
 	n := 14
 	if ctx.Thorough() {
